@@ -31,9 +31,6 @@ from .. import aflat, common, flat, nfinal, runner
 from ..common import SLOT
 from ..runner import Exploration, Failure
 
-# the one open finding of C18 (known_findings.json F-C18-shared-state-object)
-SIG_SHARED = 'C18:_final_check:entered-recognised-by-state-object:child-machine-embedded-twice'
-
 WATCH = (SLOT['on_enter'], SLOT['on_final'], SLOT['after'])
 
 
@@ -107,7 +104,7 @@ def describe(p, ans=None):
     if ans is not None:
         out['lean_spec'] = [o - 1 for o in ans['spec'][0]]
         out['lean_code_model'] = 'AttributeError' if ans['code'] is None else [o - 1 for o in ans['code'][0]]
-        out['hypotheses'] = {'enteredWF': ans['wf'], 'noShared': ans['noshared']}
+        out['hypotheses'] = {'enteredWF': ans['wf']}
     return out
 
 
@@ -175,14 +172,9 @@ def settle(pend, ex, fails, keep=3):
         if p.probs:
             pos_only = all(('runs after' in x or 'not between' in x or 'configuration changes' in x) for x in p.probs)
             sig = 'C18.monitor.position' if pos_only else ('C18.monitor.raises' if attr_error(p) else 'C18.monitor')
-            # the open finding: an entered state shares its state object with another active state (structural
-            # condition, `noShared` false) AND the implementation does exactly what the transcription of the code
-            # — which recognises "entered" by object — predicts
-            if sig == 'C18.monitor' and not a['noshared'] and same:
-                sig = SIG_SHARED
             bump(ex.stats, 'monitor_rejections', sig)
             kept[sig] = kept.get(sig, 0) + 1
-            if kept[sig] <= (1 if sig == SIG_SHARED else keep):
+            if kept[sig] <= keep:
                 fails.append(Failure('monitor', 'fires-spec', p.case, describe(p, a), signature=sig))
 
 
@@ -730,13 +722,16 @@ def shrink_steps(case):
         c['desc']['trans'] = []
         yield c
     for i, nd in enumerate(d['nodes']):
-        if nd['final']:
+        if nd['final'] and 'obj' not in nd:
             c = copy.deepcopy(case)
-            c['desc']['nodes'][i]['final'] = False
+            for k, n2 in enumerate(c['desc']['nodes']):
+                if k == i or n2.get('obj') == i:       # copies of an embedded state are ONE object: one flag
+                    n2['final'] = False
             yield c
-    # drop a leaf state nothing refers to (ids are renumbered)
+    # drop a leaf state nothing refers to (ids are renumbered); not with embedded child machines (copies must stay isomorphic)
+    shared = any('obj' in n2 or n2.get('emb') for n2 in d['nodes'])
     for i, nd in enumerate(d['nodes']):
-        if nd['kids'] or len(d['nodes']) == 1 or d['initial'] == i:
+        if shared or nd['kids'] or len(d['nodes']) == 1 or d['initial'] == i:
             continue
         if any(t['src'] == i or t['dst'] == i or t['scope'] == i for t in d['trans']):
             continue
@@ -781,9 +776,7 @@ class C18(runner.Check):
     level = 'proof'
     theorems = ('TM.C18_flat_exact', 'TM.C18_flat_history', 'TM.C18_flat_final_position',
                 'TM.C18_flat_no_final_otherwise', 'TM.C18_flat_tags_fresh', 'TM.C18_flat_reentrant_exact',
-                'TM.C18_flat_reentrant_event', 'TM.C18_nested_exact_partial', 'TM.C18_nested_exact_distinct_objects',
-                'TM.C18_nested_exact_counterexample', 'TM.C18_nested_exact_counterexample_shared',
-                'TM.C18_nested_calls', 'TM.C18_nested_owner_iff',
+                'TM.C18_flat_reentrant_event', 'TM.C18_nested_exact', 'TM.C18_nested_calls', 'TM.C18_nested_owner_iff',
                 'TM.C18_nested_machine_last', 'TM.C18_nested_children_first', 'TM.C18_nested_once')
     manifest = dict(
         level='proof', design='DESIGN.md 4/C18 + design_notes/C18.md',
@@ -796,12 +789,10 @@ class C18(runner.Check):
              "transition starts exactly its destination's on_enter callbacks, on_final iff THAT destination is final, "
              "its after callbacks, wherever nested events left the model (tags are fresh: C18_flat_tags_fresh). Nested: the transcription of NestedTransition._final_check (loop variable doubling "
              "as return value included) against the declarative fires spec over all configuration trees, flag "
-             "placements and entered sets by structural induction: C18_nested_exact (the check never raises and "
-             "schedules exactly the owners that fire) holds whenever no entered state shares its state OBJECT with "
-             "another active state (C18_nested_exact_partial / _distinct_objects); open finding F-C18-shared-state-object "
-             "with proved counterexample (one child machine embedded under several states); plus children-first / "
-             "machine-last / once; the "
-             "three defects repaired by 919a36b / 576f1fd are regression examples in Lean and in the corpus. Tied to /repo by driving HierarchicalMachine and "
+             "placements and entered sets by structural induction: C18_nested_exact at full strength (the check never "
+             "raises and schedules exactly the owners that fire; states are paths, so copies of an embedded child "
+             "machine's state are distinct), plus children-first / machine-last / once; the "
+             "defects repaired by 919a36b / 576f1fd / 56c10cf are regression examples in Lean and in the corpus. Tied to /repo by driving HierarchicalMachine and "
              "HierarchicalAsyncMachine on random (depth <= 4, exclusive/parallel/partial-parallel) and all small trees, "
              "observing per executed transition the entered set, configuration and recorder calls (coroutine recorders "
              "that really suspend on the async class, with start and end): the fires spec "
@@ -814,8 +805,7 @@ class C18(runner.Check):
              "configuration are OBSERVED on the implementation (on_enter recorders, model.state), not modelled: how "
              "_resolve_transition computes them is C02/C03's subject; theorem hypothesis enteredWF (entered states are "
              "active afterwards; below an entered state everything active was entered) is checked on every observed "
-             "segment and reported. One open finding (F-C18-shared-state-object), classified by signature only when the "
-             "structural condition holds AND the implementation behaves exactly as the transcription predicts.",
+             "segment and reported. No open finding: every rejection is a VIOLATION.",
         technique='Lean 4 proof (mutual structural induction over configuration trees; acceptor analysis for the flat '
                   'engine) + differential correspondence of _final_check + spec monitor on observed transitions, '
                   'exhaustive small scope')
@@ -892,7 +882,7 @@ class C18(runner.Check):
         done = set()
         for f in ex.failures:
             key = (f.kind, f.what, f.signature)
-            if key in done or f.signature == SIG_SHARED:     # the open finding has its minimal witness in the corpus
+            if key in done:
                 continue
             done.add(key)
             f.case = runner.shrink(f.case, self.fails_like(f), shrink_steps, budget=15 if f.what == 'hang' else 300)
